@@ -10,7 +10,7 @@ from props import REGISTRY
 
 # tier -> (libFuzzer runs in total, max_len, jobs, rapidcheck cases per shard, rapidcheck max_size, time cap for libFuzzer)
 TIERS = {
-    "quick": (1600000, 192, 16, 2500, 24, None),
+    "quick": (1200000, 192, 16, 2500, 24, None),
     "thorough": (48000000, 512, 16, 80000, 40, 3600),
 }
 
@@ -32,7 +32,7 @@ RULE = (
 )
 
 ASSUMPTIONS = [
-    "inputs contain no interior NUL (the tokenizer API is const char*)",
+    "inputs contain no interior NUL (the tokenizer API is const char*): a fuzz input is cut at its first NUL",
     "the fuzz round-trip oracle is asserted only when every token is a lexically well-formed C/OKL token "
     "(identifier regex, valid integer/float literal spelling, terminated block comment, no unknownToken); "
     "other inputs are checked for crashes / sanitizer reports only",
@@ -93,8 +93,9 @@ def run(prop, tier, replay, t0):
 
         # 2. libFuzzer campaign
         seed_dirs, nlits = _seed_dirs(wd)
+        asan = vlib.base_env(wd)["ASAN_OPTIONS"] + ":quarantine_size_mb=64"     # 16 processes: keep RSS moderate
         v_fuzz.run_fuzzer(prop, fzbin, wd, out, runs, max_len, seed_dirs, dict_file=_dict(wd), jobs=jobs,
-                          thorough_time=cap, findings=f_bin, known_ids=ids)
+                          thorough_time=cap, findings=f_bin, known_ids=ids, extra_env={"ASAN_OPTIONS": asan})
         out.extra["fuzz"]["seed_literals_from_tests"] = nlits
         fuzz_execs = out.evaluations
 
